@@ -14,7 +14,7 @@ RULE = ('random (pipe, data, model) topologies with product ≤ 12, 1–2 blocks
         'second-order data are checked; files on disk are listed and read back; the trace matcher checks that all ranks '
         'take part in the same collectives; continued gradients are compared with the unsharded reference implementing '
         'the C09 load semantics (model-parallel degree 1; degree > 1 is known finding F2); non-trivial = ≥2 ranks'
-        '; float32 inverses with float64 factors; in-place roll-back histories (checkpoint, train, checkpoint, load the first into the same object, train, checkpoint at the same step count) with the truth recomputed per checkpoint')
+        '; float32 inverses with float64 factors; in-place roll-back histories (checkpoint, train, checkpoint, load the first into the same object, train, checkpoint at the same step count) with the truth recomputed per checkpoint; checkpoints right after a step that refreshed factors but not eigendecompositions; several inverse workers saving into one directory with file-system calls as scheduling points')
 TRUSTED = [
     'Lean 4.33 kernel; axioms audited ⊆ {propext, Classical.choice, Quot.sound}',
     'hand-written models KV.NeoxCkpt (gather/merge/restore bookkeeping) and KV.Neox (assignment, C12)',
@@ -212,10 +212,22 @@ def run(ctx):
         # three stages of two blocks: layer names such as '2' and '12' (one a suffix of the other), in memory
         dict(pp=3, dp=1, mp=1, blocks=2, ops=['f1', 's', 'l1', 'f1', 's'], ckpt_dir=None, empty_stage=None),
         dict(pp=3, dp=2, mp=1, blocks=2, ops=['f1', 's', 'l1', 'f1', 's'], ckpt_dir=None, empty_stage=None),
+        # checkpoint right after a step that refreshed the factors but not the eigendecompositions (inverse interval 2, 3): the
+        # inverse workers hold the factors as completed futures of the factor all-reduce; in memory and into a fresh directory
+        dict(pp=1, dp=2, mp=1, blocks=1, fus=1, ius=2, hook=True, accum=1, ops=['f1', 's', 'f1', 's', 'v', 'f1', 's'], ckpt_dir=None),
+        dict(pp=2, dp=2, mp=1, blocks=1, fus=1, ius=3, ops=['f1', 's', 'f1', 's', 'l1', 'f1', 's'], ckpt_dir=None, empty_stage=None),
+        dict(pp=1, dp=2, mp=2, blocks=1, fus=1, ius=2, ops=['f1', 's', 'f1', 's', 'v'], ckpt_dir='DIR'),
+        dict(pp=2, dp=2, mp=1, blocks=2, fus=1, ius=2, ops=['f1', 's', 'f1', 's', 'l1', 'f1', 's'], ckpt_dir='DIR', empty_stage=None),
+        # several inverse workers writing into one directory at once (file-system calls are scheduling points; every rank of
+        # the simulated job has LOCAL_RANK 0, as on nodes with one process each)
+        dict(pp=1, dp=3, mp=1, blocks=2, ops=['f1', 's', 'v'], ckpt_dir='DIR'),
+        dict(pp=2, dp=2, mp=1, blocks=2, ops=['f1', 's', 'v', 'f1', 's'], ckpt_dir='DIR', empty_stage=None),
     ]
     for i in range(n):
         if i < len(corpus):
             cfg = neoxsim.NCfg(rng, **corpus[i])
+            if cfg.ckpt_dir == 'DIR':
+                cfg.ckpt_dir = os.path.join(OUT, 'neox_ckpt', f'case{i}')
         else:
             while True:
                 cfg = neoxsim.NCfg(rng)
